@@ -211,11 +211,7 @@ Proof.
   split; [now rewrite E|ring].
 Qed.
 Lemma r_absolute : exact1 Rabs (fun x => x <> 0) vjp_absolute_0.
-Proof.
-  intros x g H. destruct (r_abs x g H) as [D _]. unfold vjp_absolute_0. unfold vjp_abs_0 in D.
-  assert (Ha : Rabs x <> 0) by now apply Rabs_no_R0.
-  rewrite !rwhere_nz in D by assumption. split; [exact D|field; assumption].
-Qed.
+Proof. intros x g H. exact (r_abs x g H). Qed.
 
 Lemma is_derive_asin x : -1 < x < 1 -> is_derive asin x (1 / sqrt (1 - x ^ 2)).
 Proof.
